@@ -123,8 +123,8 @@ def main():
         "notes": "Technique family: static analysis only. Exit 2 / ANALYSIS-ERROR = undecided (never a violation). "
                  "See DESIGN.md; known findings in /verif/known_findings.json.",
     }
-    if not na:
-        man.pop("not_applicable")
+    # an empty list is kept: every property is claimed; the clauses of each property that static analysis does not decide are stated in
+    # the check's level_claimed / level_note and in DESIGN.md section 7
     with open(os.path.join(VERIF, "MANIFEST.json"), "w") as f:
         json.dump(man, f, indent=1)
     print(f"MANIFEST.json: {len(checks)} checks, {len(na)} not yet built")
